@@ -15,7 +15,7 @@ func main() {
 	r.Rule("pairwise histories: the reorg-heavy C01 generator drives a store through connect / disconnect-to-height / re-mine-in-other-order-or-block / confirmed-double-spend / abandon cycles; after every disconnect, conflict removal and abandon (and 1 in 8 other prefixes) a SECOND store is built in a fresh database directly from the ledger model's current facts (blocks in height order, unmined parents-first, leases) and the complete observable surface of both stores is compared: balance grid, UnspentOutputs (amount, block, time, coinbase), OutputsToWatch, UnminedTxHashes, TxDetails of every universe transaction, RangeTransactions per block as a set. The event semantics of the first half of the statement are judged by the ledger model after every event. Non-trivial = at least one path comparison after a disconnect or conflict removal; distinct = distinct event sequences.")
 	r.Trusted("btcd wire/chainhash", "walletdb/bdb (C11)")
 	r.Assume("order of transactions within a block is not compared (the store records insertion order; the property promises none)", "credited outputs have positive value (DESIGN O-6)")
-	n := r.N(120, 2500)
+	n := r.N(400, 3500)
 	cfg := ledger.Config{MinSteps: 20, MaxSteps: r.N(70, 180), Balance: true, Details: true, Path: true, PathEvery: 8, ReorgHeavy: true, Reopen: true}
 	dir := r.TempDir("c02")
 	defer os.RemoveAll(dir)
